@@ -101,8 +101,8 @@ def wide_one(m, seeds, nvals):
     else:
         lines = ["wfill %s %d %d" % (tn, seeds.below(100000), seeds.choice([8, 32, 64, 200])) for tn, _ in m["defs"] for _ in range(nvals)]
         outs, ev = widefind.run_robust(m["exe"], lines, line_timeout=6)
-    # a driver death (or a hang: exponential self-recursion) inside asn_random_fill (assertion `range < intmax_max' on INTEGER (0..9223372036854775807)) is a defect
-    # of the value SOURCE, not of a codec: the value is unusable
+    # a driver death or hang inside asn_random_fill (assertion `range < intmax_max' on INTEGER (0..9223372036854775807); unbounded
+    # self-recursion on recursive types) is a defect of the value SOURCE, not of a codec: the value is unusable
     cnt("wide_fill_crash", len([e for e in ev if e[1] != "EXIT"]))
     vals = {}
     for l, o in zip(lines, outs):
@@ -155,6 +155,10 @@ def wide_one(m, seeds, nvals):
 def wide_layer(run, wmods, wrng, tier):
     built = [m for m in wmods if m.get("exe")]
     run.count("wide_module_not_built", len(wmods) - len(built))     # C10's business (and its findings); not a C01 statement
+    for m in wmods:
+        if m.get("fixed_values") and not m.get("exe"):               # ... except for the hand-made module, which is known to build
+            run.violation("build:module", {"what": "the hand-made boundary module of the wide layer was rejected or its code does not compile", "module": m["text"],
+                                           "asn1c_out": (m.get("asn1c_out") or "")[-1200:], "build_log": (m.get("build_log") or "")[-1200:]})
     subs = [Rng(wrng.next()) for _ in built]
     nvals = 10 if tier == "quick" else 16
     with ThreadPoolExecutor(max_workers=8) as ex:
